@@ -104,6 +104,10 @@ def g_qdtext(rng):
     r = rng.random()
     if r < 0.3:
         return rng.choice(["a", "'", "\\", "\\27", "\\5c", "a|b", " lead", "trail ", "''", "\\\\", "( x )", "$", "X-FOO 'bar'", "'\\", "a'b\\c"])
+    if r < 0.36:
+        # long runs of characters that need escaping (sizes around powers of two and above any small fixed cap)
+        n = rng.choice([31, 32, 33, 34, 64, 65, 100, 257, 600])
+        return "".join(rng.choice("''\\\\ab") for _ in range(n))
     n = rng.choice([1, 2, 3, 6, 15])
     return "".join(rng.choice(STR_ALPHABET) for _ in range(n))
 
